@@ -255,7 +255,9 @@ func c14(r *Run) {
 		}
 		failed := cmpAtom(func(v ssa.Value) bool { return v == ctl[0].(ssa.Value) }, isNilConst, neqRel)
 		r.mustPass("C14.R1:failed-register-closes", "when the poller refuses the registration the connection is closed (descriptor, slot and buffers are given back) and an error is returned", fn, ctl[0], edgesEstablishing(fn, failed),
-			func(i ssa.Instruction) bool { return isCall(i, w.MustFn("(*connection).Close")) || isCall(i, ro.onClose) }, nil, nil, "Close() on every path from the error edge")
+			func(i ssa.Instruction) bool {
+				return isCall(i, w.MustFn("(*connection).Close")) || isCall(i, ro.onClose)
+			}, nil, nil, "Close() on every path from the error edge")
 		for _, name := range []string{"newTCPConnection", "newUnixConnection"} {
 			f := w.MustFn(name)
 			// error => nil connection
